@@ -90,8 +90,12 @@ class Executor:
             skip_read = fresh and src is not None and self.skip(src.comp) and self.skip(child_comp)
             if src is not None and not skip_read:
                 self.counts[(src.comp, tensor, "read")] += 1
+            if src is not None:
+                # a Toll is a component serving the same requester: its action for a never-written output value
+                # is omitted iff its own flag (default True) and the requester's flag are set
                 for tl in tolls:
-                    if self.toll_dir(tl, tensor) in ("down", "up_and_down"):
+                    if self.toll_dir(tl, tensor) in ("down", "up_and_down") and \
+                            not (fresh and self.skip(tl.comp) and self.skip(child_comp)):
                         self.counts[(tl.comp, tensor, "read")] += 1
             if child_is_storage and not (fresh and self.skip(child_comp)):
                 self.counts[(child_comp, tensor, "write")] += 1
